@@ -422,6 +422,33 @@ func c18(r *Report) {
 				if _, isIf := b.Block().Instrs[len(b.Block().Instrs)-1].(*ssa.If); !isIf {
 					continue
 				}
+				endsInError := func(out *ssa.BasicBlock) bool {
+					vals, _, okp := returnValuesFrom(out, ps.Signature.Results().Len()-1)
+					if !okp || len(vals) == 0 {
+						return false
+					}
+					for _, l := range vals {
+						if !isFreshErr(l) {
+							return false
+						}
+					}
+					return true
+				}
+				// is this a validating test at all? with every field of the chain negative it must end in
+				// an error (a test like `if MaxBandwidth <= 0 { use the default }` is not one)
+				if out0, ok0 := decide(b.Block(), func(v ssa.Value) (bool, bool) {
+					c, isB := v.(*ssa.BinOp)
+					if !isB {
+						return false, false
+					}
+					ck, isCK := constInt(c.Y)
+					if fieldOf(c.X) == nil || !isCK {
+						return false, false
+					}
+					return cmpHolds(c.Op, -1, ck), true
+				}); !ok0 || out0 == nil || !endsInError(out0) {
+					continue
+				}
 				n++
 				out, okD := decide(b.Block(), func(v ssa.Value) (bool, bool) {
 					c, isB := v.(*ssa.BinOp)
@@ -800,41 +827,10 @@ func c18(r *Report) {
 		}
 	})
 
-	r.Guard("C18.R4", "a read lock is never taken again by a callee while it is held", func() {
-		for _, f := range w.Funcs("trafficshape") {
-			may := lockStatesMay(f)
-			for _, c := range plainCalls(f) {
-				callee := c.Call.StaticCallee()
-				if callee == nil || callee.Pkg == nil || callee.Pkg.Pkg.Path() != P("trafficshape") || callee.Blocks == nil {
-					continue
-				}
-				acq := acquires(callee)
-				if len(acq) == 0 || len(may[c]) == 0 {
-					continue
-				}
-				// translate callee paths (rooted at its receiver) to the caller's view
-				if len(callee.Params) == 0 || len(c.Call.Args) == 0 {
-					continue
-				}
-				recvName := callee.Params[0].Name()
-				argPath := pathOf(c.Call.Args[0])
-				bad := ""
-				for p := range acq {
-					if !strings.HasPrefix(p, recvName+".") && p != recvName {
-						continue
-					}
-					tp := argPath + strings.TrimPrefix(p, recvName)
-					if may[c]["R:"+tp] || may[c]["W:"+tp] {
-						bad = tp
-					}
-				}
-				r.Sites++
-				r.Decide("lockset", fmt.Sprintf("%s calls %s without holding a lock the callee takes", fnName(f), fnName(callee)), bad == "", "no overlap between held locks and the callee's acquisitions", "the caller holds "+bad+" and the callee locks it again: sync.RWMutex read locks are not reentrant, a waiting writer (reconfiguration) makes this deadlock", c.Pos())
-			}
-		}
-	})
+	r.Guard("C18.R4", "a read lock is never taken again by a callee while it is held", func() { noReentrantLockRule(r, "trafficshape") })
 
 	r.Guard("C18.R5", "every response on a shaped connection starts from a fresh shaping context", func() {
+		sessionConnIsServedConnRule(r)
 		handle := r.Use("", "Proxy.handle")
 		if handle == nil {
 			return
@@ -900,6 +896,34 @@ func c18(r *Report) {
 						}
 					}
 				}
+			}
+			// once the first position has been read, it is the answer: nothing that follows (a look at
+			// the last position, a plausibility test) turns a valid single range into -1
+			for _, c := range plainCalls(grs, "strconv.ParseInt", "strconv.Atoi", "strconv.ParseUint") {
+				tests := errTests(c)
+				if len(tests) == 0 {
+					continue
+				}
+				val := resultOf(c, 0)
+				okStart := true
+				for _, e := range tests {
+					if p := G(grs).PathTo(blockStart(e.Nil), true, nil, func(i ssa.Instruction) bool {
+						ret, isR := i.(*ssa.Return)
+						if !isR {
+							return false
+						}
+						for _, l := range resolveAll(ret.Results[0]) {
+							if unwrapConv(l) != val && l != val {
+								return true
+							}
+						}
+						return false
+					}); p != nil {
+						okStart = false
+					}
+				}
+				r.Decide("path", "M/proxyutil.GetRangeStart: a first position that was read is returned", okStart, "every return after the successful parse returns the parsed number", "after the first position of the range was parsed the function can still answer something else (a comparison with the last position that rejects a one-byte range): the response is not shaped, and a close or halt configured at that byte does not fire", c.Pos())
+				break
 			}
 			r.Decide("table", "M/proxyutil.GetRangeStart: -1 for multipart, unparseable and unmatched ranges, 0 only for a response that is not partial", neg >= 3 && zero == 1 && other == 0, fmt.Sprintf("%d returns of -1, %d of 0", neg, zero), "an arm that must report \"cannot position\" (-1) reports something else: the response is shaped as if it started at that byte", grs.Pos())
 		}
@@ -1343,6 +1367,15 @@ func c18(r *Report) {
 				pred = f
 			}
 		}
+		// a method value (`searchKey{...}.reached`): the bound wrapper stands for the method, whose
+		// receiver fields hold what the literal captured
+		if pred != nil && pred.Blocks != nil && pred.Synthetic != "" {
+			for _, c := range calls(pred) {
+				if sc := c.Common().StaticCallee(); sc != nil && sc.Blocks != nil && sc.Pkg == fn.Pkg {
+					pred = sc
+				}
+			}
+		}
 		okPred := pred != nil
 		if pred != nil {
 			for _, ab := range []int64{4, 5, 6} {
@@ -1357,6 +1390,15 @@ func c18(r *Report) {
 					}
 					if fv, isFv := v.(*ssa.FreeVar); isFv && fv.Name() == fn.Params[1].Name() {
 						return 5, true
+					}
+					// the offset kept in a field of the predicate's receiver, named like the parameter
+					if fl, isFl := v.(*ssa.Field); isFl && fieldObjV(fl).Name() == fn.Params[1].Name() {
+						return 5, true
+					}
+					if ld, isLd := v.(*ssa.UnOp); isLd && ld.Op == token.MUL {
+						if fa, isFa := ld.X.(*ssa.FieldAddr); isFa && fieldObj(fa).Name() == fn.Params[1].Name() {
+							return 5, true
+						}
 					}
 					return 0, false
 				}}
@@ -1445,6 +1487,10 @@ func c18(r *Report) {
 		}
 		r.Decide("table", "M/trafficshape.Conn.GetCurrentThrottle compares the offset with the throttle's end", n >= 1, fmt.Sprintf("%d end test(s)", n), "no comparison between ByteEnd and the offset: the look-up cannot tell whether the offset lies inside a throttle", fn.Pos())
 	})
+
+	r.Guard("C18.R8", "the shaped connection's bucket callbacks do the I/O they were given an allowance for", func() { shapedCallbacksDoIORule(r) })
+
+	r.Guard("C18.R8", "every tick empties the bucket", func() { bucketDrainRule(r) })
 
 	r.Guard("C18.R8", "a bucket hands its callback exactly the capacity that is left, whenever some is left, and accounts for what the callback used", func() {
 		// evaluated on (fill, capacity) in {0,3,10,12} x {10}: the callback runs when fill < capacity
@@ -1892,4 +1938,148 @@ func shapedCloseNeverWaitsRule(r *Report) {
 		r.Decide("lockset", "(*M/trafficshape.Conn)."+mn+" blocks holding no lock that Close takes", bad == "", "no lock of Close held at an I/O call, a bucket wait or a sleep", "the method can sit in I/O (or wait for bandwidth) holding c"+bad+", which Close locks: Close - the call that is meant to unblock it - waits for it instead; a tunnel's end-of-stream is not passed on until the other direction finishes, and a blocked writer is never released", m.Pos())
 	}
 	r.Decide("lockset", "the shaped connection's I/O methods contain blocking calls", n >= 4, fmt.Sprintf("%d blocking call sites", n), "no blocking call found in the I/O methods: the rule has nothing to check", cl.Pos())
+}
+
+// shapedCallbacksDoIORule: the function a shaped connection hands to a bucket
+// performs the I/O it was given an allowance for on every path: a callback
+// that can return (0, nil) without reading or writing makes Read return no
+// data without an error (bufio gives up with io.ErrNoProgress and the request
+// is lost) or makes the write loop spin. Shared by C18.R8 and C01.R1.
+func shapedCallbacksDoIORule(r *Report) {
+	w := r.W
+	n := 0
+	for _, f := range w.Funcs("trafficshape") {
+		if f.Signature.Recv() == nil || namedOf(f.Signature.Recv().Type()) != "Conn" {
+			continue
+		}
+		for _, c := range plainCalls(f, "(*M/trafficshape.Bucket).FillThrottle", "(*M/trafficshape.Bucket).FillThrottleLocked", "(*M/trafficshape.Bucket).Fill") {
+			var cb *ssa.Function
+			for v := range w.backSlice(c.Call.Args[1], flowOpt{}) {
+				if mc, isMc := v.(*ssa.MakeClosure); isMc {
+					cb, _ = mc.Fn.(*ssa.Function)
+				}
+			}
+			if cb == nil || cb.Blocks == nil {
+				continue
+			}
+			n++
+			r.Touch(f)
+			g := G(cb)
+			isIO := func(i ssa.Instruction) bool {
+				ci, ok := i.(ssa.CallInstruction)
+				if !ok {
+					return false
+				}
+				if ci.Common().IsInvoke() {
+					switch ci.Common().Method.Name() {
+					case "Read", "Write", "ReadFrom", "WriteTo":
+						return true
+					}
+				}
+				switch calleeName(ci) {
+				case "io.CopyN", "io.Copy", "(*M/trafficshape.Conn).WriteDefaultBuckets", "(*M/trafficshape.Bucket).FillThrottle", "(*M/trafficshape.Bucket).FillThrottleLocked", "(*M/trafficshape.Bucket).Fill":
+					return true // (a nested bucket call: its own callback is checked in turn)
+				}
+				return false
+			}
+			// "nothing to do": a return guarded by `amount == 0` (an action is due at this very byte)
+			zeroGuarded := func(ret *ssa.Return) bool {
+				for _, ce := range ctrlEdges(ret.Block()) {
+					if b, isB := ce.If.Cond.(*ssa.BinOp); isB && b.Op == token.EQL && ce.Taken {
+						if k, isK := constInt(b.Y); isK && k == 0 {
+							return true
+						}
+						if k, isK := constInt(b.X); isK && k == 0 {
+							return true
+						}
+					}
+				}
+				return false
+			}
+			// a path to a return with a nil error that performs no I/O
+			bad := g.PathTo([]ssa.Instruction{g.Entry()}, true, isIO, func(i ssa.Instruction) bool {
+				ret, isR := i.(*ssa.Return)
+				if !isR || len(ret.Results) < 2 || zeroGuarded(ret) {
+					return false
+				}
+				for _, v := range retVals(ret, len(ret.Results)-1) {
+					for _, l := range resolveAll(v) {
+						if isNilConst(l) {
+							return true
+						}
+					}
+				}
+				return false
+			})
+			r.Sites++
+			r.Decide("path", fmt.Sprintf("%s: the callback given to %s performs its I/O on every successful path", fnName(f), site(f, c)), bad == nil, "no return with a nil error is reachable without the read or write", "the callback can return without an error and without having read or written (skipping a small allowance): Read then returns (0, nil) - a bufio reader gives up after a few of those and the request is lost - or the write loop spins until the next interval", c.Pos())
+		}
+	}
+	r.Decide("path", "the shaped connection passes I/O callbacks to its buckets", n >= 4, fmt.Sprintf("%d callbacks", n), "fewer bucket callbacks than on the pinned tree", token.NoPos)
+}
+
+// bucketDrainRule: the drain loop of a bucket sets the fill to zero on every
+// tick (a bucket that carries a debt over makes a later, unrelated write wait
+// for as long as an earlier bulk transfer overdrew it - minutes, past the idle
+// deadline). Shared by C18.R8 and C04.R5 (tunnels through a shaped listener).
+func bucketDrainRule(r *Report) {
+	lp := r.W.Fn("trafficshape", "Bucket.loop")
+	if lp == nil || lp.Blocks == nil {
+		r.Undecided("M/trafficshape.Bucket.loop", "UNRESOLVED")
+		return
+	}
+	r.Touch(lp)
+	isReset := func(i ssa.Instruction) bool {
+		c, ok := i.(*ssa.Call)
+		if !ok || !(calleeName(c) == "sync/atomic.StoreInt64" || strings.HasSuffix(calleeName(c), ".Store")) {
+			return false
+		}
+		fa, isFa := c.Call.Args[0].(*ssa.FieldAddr)
+		if !isFa || fieldObj(fa).Name() != "fill" {
+			return false
+		}
+		k, isK := constInt(c.Call.Args[len(c.Call.Args)-1])
+		return isK && k == 0
+	}
+	n, bad := everyRoundPasses(lp, isReset)
+	r.Decide("path", "(*M/trafficshape.Bucket).loop: every tick resets the fill to zero", n >= 1 && bad == nil, "atomic.StoreInt64(&b.fill, 0) lies on every trip round the drain loop", "a tick can leave part of the fill in place (a debt carried over): bytes written after a bulk transfer overdrew the bucket stall until the debt is paid off, which can be longer than the connection's deadline", lp.Pos())
+}
+
+// noReentrantLockRule: inside package rel no function calls, while it may hold
+// a lock, a function of the package that takes the same lock (translated
+// through the receiver): sync mutexes are not reentrant, and a read lock taken
+// twice deadlocks as soon as a writer waits in between.
+func noReentrantLockRule(r *Report, rel string) {
+	w := r.W
+	for _, f := range w.Funcs(rel) {
+		may := lockStatesMay(f)
+		for _, c := range plainCalls(f) {
+			callee := c.Call.StaticCallee()
+			if callee == nil || callee.Pkg == nil || callee.Pkg.Pkg.Path() != P(rel) || callee.Blocks == nil {
+				continue
+			}
+			acq := acquires(callee)
+			if len(acq) == 0 || len(may[c]) == 0 {
+				continue
+			}
+			// translate callee paths (rooted at its receiver) to the caller's view
+			if len(callee.Params) == 0 || len(c.Call.Args) == 0 {
+				continue
+			}
+			recvName := callee.Params[0].Name()
+			argPath := pathOf(c.Call.Args[0])
+			bad := ""
+			for p := range acq {
+				if !strings.HasPrefix(p, recvName+".") && p != recvName {
+					continue
+				}
+				tp := argPath + strings.TrimPrefix(p, recvName)
+				if may[c]["R:"+tp] || may[c]["W:"+tp] {
+					bad = tp
+				}
+			}
+			r.Sites++
+			r.Decide("lockset", fmt.Sprintf("%s calls %s without holding a lock the callee takes", fnName(f), fnName(callee)), bad == "", "no overlap between held locks and the callee's acquisitions", "the caller holds "+bad+" and the callee locks it again: sync.RWMutex read locks are not reentrant, a waiting writer (reconfiguration) makes this deadlock", c.Pos())
+		}
+	}
 }
